@@ -152,7 +152,11 @@ class RealBook:
                 writer = blob.get_blob_writer('1.2.3.4', 3333)
             except OSError as e:
                 raise Misaligned(f'cannot open a writer for {n}: {e}')
-            writer.write(c)
+            try:
+                writer.write(c)
+            except OSError as e:
+                # e.g. the blob object took length 0 from a zero-byte file it found earlier and refuses any data
+                raise Misaligned(f'the writer for {n} refuses the data: {e}')
         self._run_to_next_job()          # callbacks ran: the file write is with the executor
 
     def _find_job(self, pred):
@@ -195,7 +199,12 @@ class RealBook:
         self._run_to_next_job()
 
     def external_remove(self, n):
-        os.remove(os.path.join(self.blob_dir, self.hashes[n]))
+        path = os.path.join(self.blob_dir, self.hashes[n])
+        if not os.path.exists(path):
+            # the product removed the file itself (a file whose size contradicts the recorded length is deleted when the blob
+            # object is created): the scripted history has no meaning from here on
+            raise Misaligned(f'the file of {n} is not there any more')
+        os.remove(path)
 
     def external_add(self, n, garbage=False):
         with open(os.path.join(self.blob_dir, self.hashes[n]), 'wb') as f:
